@@ -1,118 +1,157 @@
 ------------------------- MODULE BodyStreamTrace -------------------------
 (* Trace judge for C07.  Reads a JSON list of traces recorded from the real request streams
-     [iface, cl, sent, evs, first, short, skip,
+     [iface, cl, alt0, refok, dzero, drefuse, sent, evs, first, short,
       ev: [op, n, res, lines, stop, err, eof, tell, recv, reach, rawpos]]
    makes every trace an initial state and replays it against the pure operators of
    BodyStreamOps (Body == Take(Sent, CL), the flat cursor of CursorOps, the end-of-body index
    of the event script).  Short reads are legal where the interface allows them, so the cursor
    advances by what the event says was returned; everything else is computed here.
 
+   Content-Length.  `cl` is what a valid non-negative reading of the header allows (NIL: no
+   header on ASGI; 0 for a header without such a reading).  For a header that only a lenient
+   parser reads as a number (`alt0`) the stream may also treat it as unusable: the judge then
+   tries both readings (ecl \in {cl, 0}) and the trace is accepted if one of them is.  A 4xx
+   refusal when the stream is asked for (event "open", err "refused") is an accepted outcome for
+   every header that is not strictly valid (`refok`).  Which of the accepted outcomes the code is
+   expected to take (`dzero`, `drefuse`) is D.
+
    Total: every event is consumed; the first failing P-clause is recorded in `verdict` (and ends
    the run), the first failing D-clause in `dnote` (the run continues).
      P:blocks     a call waited for an event after the end of the body / after a disconnect, or hung
-     P:exception  a call raised although the stream is open
+     P:exception  a call raised although the stream is open / the stream was refused for a valid header
      P:sized      a sized read returned more than its size
+     P:beyond     more bytes were returned in total than Content-Length allows
      P:overask    WSGI: the raw stream was asked for bytes behind Content-Length;
                   ASGI: receive() was awaited after the end of the body was known
      P:prefix     returned bytes are not the next bytes of Body
      P:stall      nothing returned (end of stream signalled) although Body has bytes left (open streams only)
-     P:eof        eof reported with bytes of Body outstanding, or not reported at the known end
+     P:exhaust    exhaust() returned with bytes of the declared body (that the server has) unconsumed
+     P:eof        eof reported with bytes of Body outstanding, or not reported at the known end / after exhaust()
      P:tell       tell() differs from the number of bytes returned so far
+   Async iteration is stepwise: "iternext" is one chunk, observed from inside the loop body while
+   the generator is suspended (the generator looks at the more_body flag of the event it has just
+   yielded from only when it is resumed, so inside the loop only a Content-Length end is "known").
+   After "iterbreak" (a suspended iterator was abandoned; the documentation then promises
+   nothing about further reads) only P:sized and P:beyond are judged.
    D-clauses (documented detail the property does not demand; never alarm):
      D:len / D:lines   a read was shorter than a full read / lines split differently
      D:recv            number of events consumed differs from the minimum needed
      D:closed          an operation on a closed ASGI stream did not raise
-   A trace may list clauses in `skip`: they are not judged on that trace (used to keep looking
-   behind an already recorded, known finding). *)
+     D:clread / D:open the header was read / refused differently from what the code is known to do *)
 EXTENDS BodyStreamOps, TLC, Json, IOUtils
 
 Traces == JsonDeserialize(IOEnv.TRACE_FILE)
 
-VARIABLES tid, l, body, endIdx, pos, ret, rc, closed, exh, verdict, fl, dnote, dl
-vars == <<tid, l, body, endIdx, pos, ret, rc, closed, exh, verdict, fl, dnote, dl>>
+VARIABLES tid, l, ecl, body, endIdx, pos, ret, rc, closed, exh, ab, verdict, fl, dnote, dl
+vars == <<tid, l, ecl, body, endIdx, pos, ret, rc, closed, exh, ab, verdict, fl, dnote, dl>>
 
 T == Traces[tid]
 E == T.ev[l]
 W == T.iface = "wsgi"
 
 Init == /\ tid \in 1..Len(Traces) /\ l = 1
-        /\ body = (IF Traces[tid].iface = "wsgi" THEN WBody(Traces[tid].sent, Traces[tid].cl)
-                   ELSE ABody(Traces[tid].evs, Traces[tid].cl))
-        /\ endIdx = (IF Traces[tid].iface = "wsgi" THEN 0 ELSE AEndIdx(Traces[tid].evs, Traces[tid].cl))
-        /\ pos = 0 /\ ret = 0 /\ closed = FALSE /\ exh = FALSE
+        /\ ecl \in (IF Traces[tid].alt0 THEN {Traces[tid].cl, 0} ELSE {Traces[tid].cl})
+        /\ body = (IF Traces[tid].iface = "wsgi" THEN WBody(Traces[tid].sent, ecl) ELSE ABody(Traces[tid].evs, ecl))
+        /\ endIdx = (IF Traces[tid].iface = "wsgi" THEN 0 ELSE AEndIdx(Traces[tid].evs, ecl))
+        /\ pos = 0 /\ ret = 0 /\ closed = FALSE /\ exh = FALSE /\ ab = FALSE
         /\ rc = (IF Traces[tid].first THEN 1 ELSE 0)
-        /\ verdict = "ok" /\ fl = 0 /\ dnote = "" /\ dl = 0
+        /\ verdict = "ok" /\ fl = 0
+        /\ dnote = (IF (ecl # Traces[tid].cl) # Traces[tid].dzero THEN "D:clread" ELSE "") /\ dl = 0
 
-Skipped(c) == \E i \in 1..Len(T.skip) : T.skip[i] = c
 rest    == Drop(body, pos)
-IsData  == E.op \in {"read", "readline", "readlines", "next", "iterall", "readall", "iter"}
+IsData  == E.op \in {"read", "readline", "readlines", "next", "iterall", "readall", "iter", "iternext"}
 Raised  == E.err # ""
 Sized   == E.op \in {"read", "readline"} /\ E.n >= 0
-AtEnd   == rc >= endIdx /\ pos = Len(body)               \* ASGI: the model stream knows it is at the end
+Nothing == (Sized /\ E.n = 0) \/ (~W /\ E.op = "read" /\ E.n < -1)    \* calls that ask for nothing
+InLoop  == (E.op = "iternext" /\ ~E.stop) \/ E.op = "iterbreak"   \* observed while the generator is suspended / abandoned
+AtEnd   == rc >= endIdx /\ pos = Len(body)                    \* ASGI: the model stream knows it is at the end
+Limit   == IF W THEN WCL(ecl) ELSE ecl
 
 (* where the cursor stands after the event (bound from what the event reports) *)
 NPos == IF Raised THEN pos
         ELSE IF IsData THEN pos + Len(E.res)
         ELSE IF E.op = "exhaust"
                THEN (IF W THEN Max(pos, Min(E.rawpos, Len(body)))
-                     ELSE IF E.recv >= endIdx THEN Len(body) ELSE Max(pos, Len(AAvail(T.evs, T.cl, E.recv))))
+                     ELSE IF E.recv >= endIdx THEN Len(body) ELSE Max(pos, Len(AAvail(T.evs, ecl, E.recv))))
         ELSE pos
 NRet    == IF ~Raised /\ IsData THEN ret + Len(E.res) ELSE ret
 NClosed == closed \/ (E.op = "close" /\ ~Raised)
 NExh    == exh \/ (E.op = "exhaust" /\ ~Raised)
-EndKnown == IF W THEN NPos = WCL(T.cl) ELSE E.recv >= endIdx \/ (T.cl # NIL /\ NPos = T.cl)
+EndKnown == IF W THEN NPos = WCL(ecl)
+            ELSE (E.recv >= endIdx /\ ~InLoop) \/ (ecl # NIL /\ NPos = ecl)
 
+OpenClauses == <<                      \* the stream could not be had
+   <<"P:exception", ~(E.err = "refused" /\ T.refok)>> >>
+AbClauses == <<                        \* after an abandoned iteration
+   <<"P:sized",     ~Raised /\ Sized /\ Len(E.res) > E.n>>,
+   <<"P:beyond",    Limit # NIL /\ NRet > Limit>> >>
 PClauses == <<
    <<"P:blocks",    E.err \in {"blocked", "hang"}>>,
-   <<"P:exception", E.err = "other" \/ (E.err = "closed" /\ ~closed)>>,
+   <<"P:exception", E.err = "other" \/ (E.err = "refused" /\ ~T.refok) \/ (E.err = "closed" /\ ~closed)>>,
    <<"P:sized",     ~Raised /\ Sized /\ Len(E.res) > E.n>>,
-   <<"P:overask",   IF W THEN E.reach > WCL(T.cl) ELSE E.recv > Max(endIdx, IF T.first THEN 1 ELSE 0)>>,
+   <<"P:beyond",    Limit # NIL /\ NRet > Limit>>,
+   <<"P:overask",   IF W THEN E.reach > WCL(ecl) ELSE E.recv > Max(endIdx, IF T.first THEN 1 ELSE 0)>>,
    <<"P:prefix",    ~Raised /\ IsData /\ ~IsPrefix(E.res, rest)>>,
-   <<"P:stall",     ~Raised /\ ~closed /\ IsData /\ E.res = <<>> /\ rest # <<>> /\ ~(Sized /\ E.n = 0)>>,
+   <<"P:stall",     ~Raised /\ ~closed /\ IsData /\ E.res = <<>> /\ rest # <<>> /\ ~Nothing>>,
+   <<"P:exhaust",   ~Raised /\ ~closed /\ E.op = "exhaust"
+                    /\ (IF W THEN E.rawpos < Len(body) ELSE E.recv < endIdx)>>,
    <<"P:eof",       ~Raised /\ (\/ (E.eof = 1 /\ ~NClosed /\ NPos # Len(body))
-                                \/ (E.eof = 0 /\ NPos = Len(body) /\ EndKnown))>>,
+                                \/ (E.eof = 0 /\ NPos = Len(body) /\ EndKnown)
+                                \/ (E.eof = 0 /\ E.op = "exhaust"))>>,
    <<"P:tell",      ~W /\ ~NExh /\ E.tell # NRet>> >>
 
-NeedIdx(k, need) == MinOf({j \in k..Len(T.evs) : AEnded(T.evs, T.cl, j) \/ Len(AAvail(T.evs, T.cl, j)) >= need}
+NeedIdx(k, need) == MinOf({j \in k..Len(T.evs) : AEnded(T.evs, ecl, j) \/ Len(AAvail(T.evs, ecl, j)) >= need}
                           \cup {Len(T.evs) + 1})
 ExpRecv == IF closed \/ Raised THEN rc
            ELSE IF E.op = "read" /\ E.n > 0 /\ ~AtEnd THEN NeedIdx(rc, pos + E.n)
-           ELSE IF E.op \in {"readall", "iter", "exhaust"} \/ (E.op = "read" /\ E.n < 0) THEN Max(rc, endIdx)
+           ELSE IF E.op = "iternext" /\ ~AtEnd THEN NeedIdx(rc, pos + 1)
+           ELSE IF E.op \in {"readall", "iter", "exhaust"} \/ (E.op = "read" /\ E.n = -1) THEN Max(rc, endIdx)
            ELSE rc
-Full == CASE E.op = "read"     -> ExpRead(body, pos, E.n)
+Full == CASE E.op = "read" /\ ~W /\ E.n < -1 -> <<>>
+          [] E.op = "read"     -> ExpRead(body, pos, E.n)
           [] E.op = "readline" -> ExpReadLine(body, pos, E.n)
           [] E.op = "next"     -> ExpReadLine(body, pos, -1)
+          [] E.op = "iternext" -> LET j == Min(NeedIdx(rc, pos + 1), Len(T.evs))
+                                  IN  Slice(body, pos, Max(pos, Len(AAvail(T.evs, ecl, j))))
           [] OTHER             -> rest
 DClauses == <<
+   <<"D:open",   l = 1 /\ T.drefuse>>,
    <<"D:closed", closed /\ ~W /\ ~Raised /\ E.op # "close">>,
    <<"D:len",    ~Raised /\ ~closed /\ IsData /\ E.op \notin {"readlines", "iterall"} /\ ~(W /\ T.short /\ E.op = "read")
                  /\ E.res # Full>>,
    <<"D:lines",  ~Raised /\ ~closed /\ E.op \in {"readlines", "iterall"}
                  /\ E.lines # ExpReadLines(body, pos, IF E.op = "iterall" THEN -1 ELSE E.n)>>,
    <<"D:recv",   ~W /\ E.recv # ExpRecv>> >>
+OpenDClauses == << <<"D:open", ~T.drefuse>> >>
 
-FirstOf(cs, skipping) ==
-    LET S == {i \in 1..Len(cs) : cs[i][2] /\ ~(skipping /\ Skipped(cs[i][1]))}
+FirstOf(cs) ==
+    LET S == {i \in 1..Len(cs) : cs[i][2]}
     IN  IF S = {} THEN "" ELSE cs[MinOf(S)][1]
 
 Step ==
     /\ l >= 1 /\ l <= Len(T.ev) /\ verdict = "ok"
-    /\ LET p == IF Raised /\ E.err = "closed" /\ closed THEN "" ELSE FirstOf(PClauses, TRUE)
-           d == IF p # "" THEN "" ELSE FirstOf(DClauses, FALSE)
+    /\ LET open == E.op = "open"
+           p == IF open THEN FirstOf(OpenClauses)
+                ELSE IF ab THEN (IF Raised THEN "" ELSE FirstOf(AbClauses))
+                ELSE IF Raised /\ E.err = "closed" /\ closed THEN ""
+                ELSE FirstOf(PClauses)
+           d == IF p # "" \/ ab THEN "" ELSE IF open THEN FirstOf(OpenDClauses) ELSE FirstOf(DClauses)
        IN  /\ verdict' = (IF p = "" THEN "ok" ELSE p)
            /\ fl' = (IF p = "" THEN fl ELSE l)
            /\ dnote' = (IF dnote = "" /\ d # "" THEN d ELSE dnote)
            /\ dl' = (IF dnote = "" /\ d # "" THEN l ELSE dl)
-    /\ pos' = Min(NPos, Len(body)) /\ ret' = NRet /\ closed' = NClosed /\ exh' = NExh
+    /\ pos' = (IF ab THEN pos ELSE Min(NPos, Len(body))) /\ ret' = NRet /\ closed' = NClosed /\ exh' = NExh
+    /\ ab' = (ab \/ E.op = "iterbreak")
     /\ rc' = (IF W THEN 0 ELSE Max(rc, E.recv))
-    /\ l' = l + 1 /\ UNCHANGED <<tid, body, endIdx>>
+    /\ l' = l + 1 /\ UNCHANGED <<tid, ecl, body, endIdx>>
 
 Done ==
     /\ l >= 1 /\ (l > Len(T.ev) \/ verdict # "ok")
-    /\ PrintT(IF verdict # "ok" THEN <<"VERDICT", tid, verdict, fl>>
-              ELSE IF dnote # "" THEN <<"VERDICT", tid, dnote, dl>>
-              ELSE <<"VERDICT", tid, "ok", l - 1>>)
-    /\ l' = -1 /\ UNCHANGED <<tid, body, endIdx, pos, ret, rc, closed, exh, verdict, fl, dnote, dl>>
+    /\ LET prim == IF ecl = T.cl THEN 1 ELSE 0         \* 1: the run that reads the header as the number it holds
+       IN  PrintT(IF verdict # "ok" THEN <<"VERDICT", tid, verdict, fl, prim>>
+                  ELSE IF dnote # "" THEN <<"VERDICT", tid, dnote, dl, prim>>
+                  ELSE <<"VERDICT", tid, "ok", l - 1, prim>>)
+    /\ l' = -1 /\ UNCHANGED <<tid, ecl, body, endIdx, pos, ret, rc, closed, exh, ab, verdict, fl, dnote, dl>>
 
 Next == Step \/ Done
 Spec == Init /\ [][Next]_vars
